@@ -333,64 +333,73 @@ func (r *Run) checkPresenceGuard(id string, fns []*ssa.Function, uriField string
 		for _, ri := range ff.Returns() {
 			rets[ri.Ret] = ri.Class
 		}
+		uriEmptyOn := func(a, b *ssa.BasicBlock) bool {
+			for _, fc := range ff.EdgeFacts(a, b) {
+				if fc.Kind == "cmp" && fc.Op == "==" && fc.B.Name == `""` && fc.A.Op == "field" && fc.A.Name == uriField {
+					return true
+				}
+				// len(uri) == 0 spelling
+				if fc.Kind == "cmp" && fc.Op == "==" && fc.B.Name == "0" && fc.A.Op == "len" && len(fc.A.Args) == 1 && fc.A.Args[0].Op == "field" && fc.A.Args[0].Name == uriField {
+					return true
+				}
+			}
+			return false
+		}
+		countBranch := func(d *ssa.BasicBlock) bool {
+			iff, ok := d.Instrs[len(d.Instrs)-1].(*ssa.If)
+			if !ok {
+				return false
+			}
+			bo, ok := iff.Cond.(*ssa.BinOp)
+			if !ok {
+				return false
+			}
+			for _, cf := range countFields {
+				if !mentionsLenOfField(bo.X, cf, 0) && !mentionsLenOfField(bo.Y, cf, 0) &&
+					!termMentionsLenOf(ff.TB.Of(bo.X), cf) && !termMentionsLenOf(ff.TB.Of(bo.Y), cf) {
+					return false
+				}
+			}
+			return bo.Op == token.GTR || bo.Op == token.NEQ || bo.Op == token.LSS || bo.Op == token.EQL
+		}
 		for _, b := range f.Blocks {
 			for _, s := range b.Succs {
-				// edge b->s carries uriField == ""
-				uriEmpty := false
-				for _, fc := range ff.EdgeFacts(b, s) {
-					if fc.Kind == "cmp" && fc.Op == "==" && fc.B.Name == `""` && fc.A.Op == "field" && fc.A.Name == uriField {
-						uriEmpty = true
-					}
-				}
-				if !uriEmpty {
-					continue
-				}
-				// s only reaches error returns
+				// the edge b->s only reaches error returns ...
 				onlyErr, n := true, 0
-				seen := map[*ssa.BasicBlock]bool{}
-				work := []*ssa.BasicBlock{s}
-				for len(work) > 0 {
-					x := work[len(work)-1]
-					work = work[:len(work)-1]
-					if seen[x] {
-						continue
-					}
-					seen[x] = true
+				visit := func(x *ssa.BasicBlock) bool {
 					if ret, ok := x.Instrs[len(x.Instrs)-1].(*ssa.Return); ok {
 						n++
 						if rets[ret] != core.RetFail {
 							onlyErr = false
 						}
-						continue
 					}
-					work = append(work, x.Succs...)
+					return false
 				}
+				visit(s)
+				ff.WalkFeasible([]*ssa.BasicBlock{b, s}, nil, visit)
 				if !onlyErr || n == 0 {
 					continue
 				}
-				// a dominating branch on count > 0 over all countFields
-				okCount := false
-				for d := b; d != nil; d = d.Idom() {
-					iff, ok := d.Instrs[len(d.Instrs)-1].(*ssa.If)
-					if !ok {
-						continue
+				// ... and it, together with the branches that necessarily lead to it, says: reference empty, and a
+				// decision on the count of the entries that need the file (the two tests may be nested either way)
+				hasURI, hasCount := uriEmptyOn(b, s), countBranch(b)
+				for x, depth := b, 0; len(x.Preds) == 1 && depth < 6; x, depth = x.Preds[0], depth+1 {
+					if uriEmptyOn(x.Preds[0], x) {
+						hasURI = true
 					}
-					bo, ok := iff.Cond.(*ssa.BinOp)
-					if !ok {
-						continue
-					}
-					all := true
-					for _, cf := range countFields {
-						if !mentionsLenOfField(bo.X, cf, 0) && !mentionsLenOfField(bo.Y, cf, 0) &&
-							!termMentionsLenOf(ff.TB.Of(bo.X), cf) && !termMentionsLenOf(ff.TB.Of(bo.Y), cf) {
-							all = false
-						}
-					}
-					if all && (bo.Op == token.GTR || bo.Op == token.NEQ || bo.Op == token.LSS) {
-						okCount = true
+					if countBranch(x.Preds[0]) {
+						hasCount = true
 					}
 				}
-				if okCount {
+				// (the original shape: a dominating count branch anywhere above)
+				if hasURI && !hasCount {
+					for d := b; d != nil; d = d.Idom() {
+						if countBranch(d) {
+							hasCount = true
+						}
+					}
+				}
+				if hasURI && hasCount {
 					found = core.FuncName(f) + " at " + r.P.Pos(firstPos(s))
 				}
 			}
